@@ -266,8 +266,10 @@ func (v *VM) exec() {
 		case codeSlice:
 			r, a, b := v.stack[len(v.stack)-3], v.stack[len(v.stack)-2], v.stack[len(v.stack)-1]
 			i, j := a.Int(), b.Int()
-			if j < 0 {
-				j += 1 + r.Len()
+			if b.t == TypeNil { // s[i:]: the parser supplies nil for the missing bound
+				j = r.Len()
+			} else if j < 0 {
+				panic(fmt.Sprintf("slice bounds out of range [:%d]", j))
 			}
 			v.stack = v.stack[:len(v.stack)-2]
 			v.stack[len(v.stack)-1] = r.Slice(i, j)
